@@ -31,6 +31,12 @@ def generate(tier, seed):
             i = rng.randrange(len(c['names']))
             c['names'].append('dup_%04d' % len(c['names']))
             c['flux'].append(c['flux'][i])
+        # some models have no flux at all in one band: their chi2 is not finite, they must still be listed once, at the end
+        if mode == '2d' and rng.random() < 0.35:
+            for _ in range(rng.randint(1, 2)):
+                i = rng.randrange(len(c['names']))
+                c['flux'][i] = list(c['flux'][i])
+                c['flux'][i][rng.randrange(len(c['wav']))] = 0.0
         # shuffle so that duplicates are not adjacent
         order = list(range(len(c['names'])))
         rng.shuffle(order)
@@ -86,6 +92,8 @@ def judge(case, im, mo):
         ks = [fitcase.k_law(case['ext'], w) for w in case['wav']]
         for i, mid in enumerate(im['model_id']):
             for j in range(len(case['wav'])):
+                if any(x == 0 for x in case['flux'][mid]):
+                    break
                 want = float(np.log10(case['flux'][mid][j])) + im['av'][i] * float(ks[j]) - 2.0 * im['sc'][i]
                 if abs(im['model_fluxes'][i][j] - want) > 1e-8 * (1 + abs(want)):
                     fail.append('pred: predicted flux of %s in band %d is %r, log10 F + A_V k - 2 scale = %r' % (im['model_name'][i], j, im['model_fluxes'][i][j], want))
@@ -104,6 +112,8 @@ def judge(case, im, mo):
                 disagree.append('order: rows %d..%d hold models %r, rank_m puts %r there' % (pos, end, im['model_id'][pos:end + 1], order[pos:end + 1]))
                 break
             pos = end + 1
+    if any(math.isnan(x) for x in chi):
+        tags.append('nan-chi2')
     fin = sorted(set(x for x in chi if math.isfinite(x) and x < 1e29))
     tags.append('ties=%s' % ('yes' if len(set(key(x) for x in chi)) < n else 'no'))
     tags.append('huge=%s' % ('yes' if any(fitcase.canon_chi(x) == 'HUGE' for x in chi) else 'no'))
